@@ -33,7 +33,8 @@ ProdSet(j) == { <<p[1], p[2]>> : p \in ToSet(j.prods) }
 JTree(e) ==
   LET P == Gram(e.P)            \* the grammar whose productions the tree must use (normal form for CNF trees)
       Vs == P.allv \cup ToSet(e.G.allv)
-  IN Chk(ValidTree(Vs, e.tree, e.G.start, P.prods, e.w), e.op \o ".valid")
+  IN IF Has(e, "badtree") THEN Fl(e.op \o ".valid") ELSE
+     Chk(ValidTree(Vs, e.tree, e.G.start, P.prods, e.w), e.op \o ".valid")
      \cup (IF Has(e, "left") THEN Chk(IsLeftmost(Vs, e.left, e.G.start, P.prods, e.w), e.op \o ".leftmost") ELSE {})
      \cup (IF Has(e, "right") THEN Chk(IsRightmost(Vs, e.right, e.G.start, P.prods, e.w), e.op \o ".rightmost") ELSE {})
      \cup (IF Has(e, "derexc") THEN Fl(e.op \o ".derivation.noexc") ELSE {})
